@@ -432,9 +432,14 @@ def property_failure(labels):
             subsequence = False
             break
         pos += 1
-    missing.extend(range(pos, len(delivered)))
+    tail = list(range(pos, len(delivered)))          # delivered after the last byte any receive returned
+    if subsequence and error_seen:
+        tail = []                                    # a reported connection error may cut the tail
+    missing.extend(tail)
     lost = bytes(delivered[i] for i in missing)
-    if subsequence and missing and all(i in exposed for i in missing) and not error_seen:
+    if subsequence and not missing:
+        return None
+    if subsequence and missing and all(i in exposed for i in missing):
         return (f"F4: bytes {lost!r} written into the buffer of a recv_into whose task was cancelled before it was "
                 f"woken up are lost: delivered {delivered!r}, receives returned {returned!r}")
     if subsequence:
@@ -475,12 +480,19 @@ def _is_corpus_input(inp):
     return sx.to_text(inp) in _corpus_inputs
 
 
+_f4_reported = set()
+
+
 def oracle(inp):
     failure = _oracle(inp)
-    if failure and failure.startswith("F4:") and not _is_corpus_input(inp):
-        # F4 is reported once, through its corpus witnesses (KNOWN-FINDING while it is listed, VIOLATION otherwise);
-        # on other inputs a loss that F4 explains completely must not hide a different failure from the search
-        return None
+    if failure and failure.startswith("F4:"):
+        # F4 is reported once per run, through its corpus witnesses (KNOWN-FINDING while it is listed, VIOLATION
+        # otherwise); anywhere else a loss that F4 explains completely must not hide a different failure from the
+        # runner's search, which stops at the first failing input
+        key = repr(inp[2]) if _is_corpus_input(inp) else None
+        if key is None or key in _f4_reported:
+            return None
+        _f4_reported.add(key)
     return failure
 
 
